@@ -1,3 +1,4 @@
+import re
 """Helpers shared by several property modules."""
 from rules.facts import norm, path_matches, origins, flows_to, call_matches, last_seg
 
@@ -80,6 +81,18 @@ PANIC_ENTRY = ['core::panicking::panic', 'core::panicking::panic_fmt', 'core::pa
                'core::panicking::panic_nounwind', 'std::rt::begin_panic', 'core::panicking::panic_str_2015',
                'std::rt::panic_fmt', 'core::panicking::assert_matches_failed']
 INDEX_CALLS = ['core::ops::index::Index::index', 'core::ops::index::IndexMut::index_mut']
+# std methods that panic for some argument values (the panic is inside std, so no panic terminator shows in the caller's MIR)
+STD_PANICKING = re.compile(
+    r'^(alloc::string::String::(truncate|split_off|insert|insert_str|remove|drain|replace_range)|'
+    r'core::str::<impl str>::(split_at|split_at_mut)|'
+    r'alloc::vec::Vec::(remove|swap_remove|insert|split_off|drain|splice)|'
+    r'core::slice::<impl \[T\]>::(copy_from_slice|clone_from_slice|split_at|split_at_mut|swap|chunks|chunks_exact|windows|rotate_left|rotate_right|'
+    r'select_nth_unstable\w*|copy_within)|'
+    r'alloc::collections::vec_deque::VecDeque::(insert|swap|split_off|drain|rotate_left|rotate_right)|'
+    r'core::char::methods::<impl char>::(from_digit|to_digit)|core::char::from_digit|'
+    r'core::time::Duration::(new|from_secs_f32|from_secs_f64|mul_f32|mul_f64|div_f32|div_f64)|'
+    r'core::cell::RefCell::(borrow|borrow_mut)|'
+    r'core::iter::traits::iterator::Iterator::step_by)$')
 
 
 def panic_sites(fn):
@@ -95,6 +108,8 @@ def panic_sites(fn):
             out.append((bb, 'panic', 'via %s' % (macros[-1] if macros else last_seg(t['callee'])), t))
         elif call_matches(t, INDEX_CALLS):
             out.append((bb, 'index', 'on %s' % norm(t.get('self_ty') or '?')[:120], t))
+        elif STD_PANICKING.match(norm(t.get('callee') or '')):
+            out.append((bb, 'std-panic', 'in %s' % norm(t['callee']), t))
     for bb, t in fn.terms('assert'):
         out.append((bb, 'assert', t.get('msg', ''), t))
     return out
